@@ -13,6 +13,12 @@ C16  Analysis attach/detach leaves the IR unchanged.
  R3  every handler the dataflow attacher/detacher dispatch to is in-place and
      annotations live outside the dataclass fields (attach cannot alter IR
      structure); totality of the attacher is a C26 matter, not a C16 one.
+ R4  the detacher reaches whatever the attacher reaches: for every IR node class,
+     if the handler the attacher dispatches to descends into the node's children
+     (so that it can attach something below it), the handler the detacher
+     dispatches to descends as well (all three attacher / detacher pairs; static
+     dispatch, ``super()`` chains followed).  A detacher that stops at a node
+     kind leaves the attachments below it in the IR after the context exits.
 Not decided: equality of the reconstructed tuples for arbitrary pragma layouts.
 """
 import ast
@@ -408,9 +414,83 @@ def run(ctx):
                                           f'attacher writes field {k.arg} from {sorted(src)} (must derive from the re-visited {k.arg})')
                         else:
                             ctx.judge('R3', f'{mem.name} rewrites {k.arg} from itself')
+    run_r4(ctx)
+
+
+def _descends(m, V, f, depth=0):
+    """does handler ``f`` (dispatched in visitor class ``V``) recurse into the children of the visited node?"""
+    if f is None or depth > 6:
+        return False
+    args = [a.arg for a in f.node.args.args]
+    par = args[1] if len(args) > 1 else None
+    # names derived from the node's attributes: assigned from / iterating over an expression that reads `<par>.<attr>`
+    derived = set()
+
+    def reads(e):
+        return any(isinstance(n, ast.Attribute) and isinstance(n.value, ast.Name) and n.value.id == par for n in ast.walk(e)) or \
+            any(isinstance(n, ast.Name) and n.id in derived for n in ast.walk(e))
+    changed = par is not None
+    while changed:
+        changed = False
+        for n in ast.walk(f.node):
+            tg = None
+            if isinstance(n, ast.Assign) and reads(n.value):
+                tg = [t for t in n.targets]
+            elif isinstance(n, (ast.For, ast.comprehension)) and reads(n.iter):
+                tg = [n.target]
+            for t in tg or []:
+                for x in ast.walk(t):
+                    if isinstance(x, ast.Name) and x.id not in derived and x.id != par:
+                        derived.add(x.id); changed = True
+    for c in ast.walk(f.node):
+        if not isinstance(c, ast.Call):
+            continue
+        d = X.dotted_attr(c.func) or ''
+        if d.startswith('self.visit') and par and any(reads(a) for a in c.args):
+            return True
+        if isinstance(c.func, ast.Attribute) and isinstance(c.func.value, ast.Call) and X.call_name_of(c.func.value) == 'super':
+            nxt = m.member_function(V, c.func.attr, after=f.cls)
+            if _descends(m, V, nxt, depth + 1):
+                return True
+    return False
+
+
+def run_r4(ctx):
+    m = ctx.model
+    DF = 'loki/analyse/dataflow_analysis.py'
+    ctx.rule('R4', 'for every IR node class: attacher handler descends into the children => detacher handler descends too '
+                   '(PragmaAttacher/PragmaDetacher, PragmaRegionAttacher/PragmaRegionDetacher, dataflow _Attacher/_Detacher)')
+    pairs = [(m.get_class(PU, 'PragmaAttacher'), m.get_class(PU, 'PragmaDetacher')),
+             (m.get_class(PU, 'PragmaRegionAttacher'), m.get_class(PU, 'PragmaRegionDetacher')),
+             (m.get_class(DF, 'DataflowAnalysis._Attacher'), m.get_class(DF, 'DataflowAnalysis._Detacher'))]
+    nodes = D.ir_node_classes(m)
+    n = deep = 0
+    for A_, D_ in pairs:
+        ha, hd = D.visitor_handlers(m, A_), D.visitor_handlers(m, D_)
+        for c in nodes:
+            fa, _ = D.visitor_dispatch(m, A_, c, ha)
+            fd, _ = D.visitor_dispatch(m, D_, c, hd)
+            if fa is None or fd is None:
+                continue
+            n += 1
+            da, dd = _descends(m, A_, fa), _descends(m, D_, fd)
+            deep += da
+            inst = f'{D_.name}x{c.name}'
+            if da and not dd:
+                ctx.violation('R4', f'{D_.name}:{fd.name}:does-not-descend', fd.where,
+                              f'{A_.name} descends into the children of a {c.name} ({fa.qualname}) but {D_.name} handles it with '
+                              f'{fd.qualname}, which does not: what was attached below a {c.name} stays in the IR after detaching',
+                              instance=inst)
+            else:
+                ctx.judge('R4', inst, nontrivial=da, facts={'attacher': fa.qualname, 'detacher': fd.qualname})
+    ctx.floor('R4', 'attacher/detacher handler pairs', n, 120)
+    ctx.floor('R4', 'pairs whose attacher descends', deep, 60)
 
 
 MUTANTS = [
+    Mutant('region-detacher-skips-leaf-nodes', PU, "    visit_list = visit_tuple\n\n\n@Timer(logger=debug, text=lambda s: f'[Loki::IR] Executed detach_pragma_regions",
+           "    visit_list = visit_tuple\n\n    def visit_LeafNode(self, o, **kwargs):\n        return o\n\n\n@Timer(logger=debug, text=lambda s: f'[Loki::IR] Executed detach_pragma_regions",
+           expect=('R4', 'does-not-descend')),
     Mutant('yield-outside-try', PU,
            "    try:\n        yield module_or_routine\n    finally:\n        if hasattr(module_or_routine, 'spec'):\n            module_or_routine.spec = detach_pragmas(",
            "    yield module_or_routine\n    if True:\n        if hasattr(module_or_routine, 'spec'):\n            module_or_routine.spec = detach_pragmas(",
